@@ -49,6 +49,28 @@ pub unsafe extern "C" fn getrandom(
     }
 }
 
+/// Short-write fault: when armed with n >= 0, the first `write` of more than n bytes to a regular
+/// file stores only max(n, 1) bytes and says so - which POSIX allows at any time (signals,
+/// quotas, full disks) and `write_all` absorbs. One shot.
+pub static SHORT_WRITE_AT: std::sync::atomic::AtomicI64 = std::sync::atomic::AtomicI64::new(-1);
+pub static SHORT_WRITES_FIRED: std::sync::atomic::AtomicU64 = std::sync::atomic::AtomicU64::new(0);
+
+#[no_mangle]
+pub unsafe extern "C" fn write(fd: libc::c_int, buf: *const libc::c_void, count: libc::size_t) -> libc::ssize_t {
+    use std::sync::atomic::Ordering::SeqCst;
+    let mut n = count;
+    let lim = SHORT_WRITE_AT.load(SeqCst);
+    if lim >= 0 && fd > 2 && count > lim as usize {
+        let mut st: libc::stat = std::mem::zeroed();
+        if libc::fstat(fd, &mut st) == 0 && (st.st_mode & libc::S_IFMT) == libc::S_IFREG {
+            n = (lim as usize).max(1);
+            SHORT_WRITE_AT.store(-1, SeqCst);
+            SHORT_WRITES_FIRED.fetch_add(1, SeqCst);
+        }
+    }
+    libc::syscall(libc::SYS_write, fd, buf, n) as libc::ssize_t
+}
+
 #[no_mangle]
 pub unsafe extern "C" fn clock_gettime(clk: libc::clockid_t, tp: *mut libc::timespec) -> libc::c_int {
     if clk == libc::CLOCK_MONOTONIC && SIM_CLOCK_ON.try_with(|s| s.get()).unwrap_or(false) {
